@@ -116,13 +116,14 @@ def bicomplex_aware(session, fn_scalar):
     return f
 
 
-def tensor_f(session, n, out_shape, kind='f', exact_kind=None):
+def tensor_f(session, n, out_shape, kind='f', exact_kind=None, reuse_buffer=False):
     """f: R^n -> R^out_shape in the DV domain.  Output element i carries the tag ('f', i, perturbed) where
     perturbed is the tuple of coordinates k whose argument is not exactly x_k; the value at the unperturbed
     x has note 'f(x)'.  Bicomplex arguments give a Bicomplex result."""
     I = session.interp
     bic = session.repo.cls('multicomplex', 'Bicomplex')
     calls = session.fcalls
+    shared = {}
     size = 1
     for s in out_shape:
         size *= s
@@ -154,6 +155,14 @@ def tensor_f(session, n, out_shape, kind='f', exact_kind=None):
             knd = exact_kind              # e.g. integer arithmetic at an integer point gives an integer f(x)
         vals = [DV({('f', i, pert)} | xt, knd, 'any', note=note) for i in range(size)]
         out = Arr(tuple(out_shape), vals) if out_shape != () else vals[0]
+        if reuse_buffer and isinstance(out, Arr) and not is_bic:
+            # a user function that writes its result into one work array and returns that array on every call
+            # (wrapped compiled code, a class with an output buffer): every individual return value is correct
+            if 'buf' not in shared:
+                shared['buf'] = out
+            else:
+                shared['buf'][...] = out
+            return shared['buf']
         if is_bic:
             o = Obj(bic)
             object.__setattr__(o, 'interp', I)
